@@ -11,12 +11,12 @@
 pub mod amplification;
 pub mod ack_manager;
 pub mod cids;
-pub mod close_sender;
-pub mod data_sender;
-pub mod flow;
+pub use crate::connection::verif_close_sender as close_sender;
+pub use crate::stream::verif_data_sender as data_sender;
+pub use crate::stream::verif_flow as flow;
 pub mod recovery;
 pub mod streams;
 pub mod sync;
-pub mod misc;
+pub use crate::endpoint::verif_misc as misc;
 pub mod recv;
 pub mod common;
